@@ -9,17 +9,27 @@ set_option linter.unusedVariables false
 namespace Scales.Serial
 open Scales.Transport
 
-/-- at operation boundaries: the socket is connected exactly when `_state` is Open; an Open
-    transport holds its open result; a transaction in flight has a connected socket -/
+/-- at operation boundaries: a connected socket means `_state` is Open; an Open transport holds
+    its open result; a transaction in flight belongs to an Open transport, and its socket is
+    connected unless it is blocked in the re-connect of its time-out handler; and — the window —
+    `_state` Open *without* a connected socket only occurs while such a transaction is in flight
+    (`_processing` set): never on an idle transport -/
 def Inv (s : St) : Prop :=
-  (s.sockOpen = true ↔ s.cstate = .opened) ∧ (s.cstate = .opened → s.openRes = true) ∧
-  (s.processing.isSome = true → s.sockOpen = true)
+  (s.sockOpen = true → s.cstate = .opened) ∧ (s.cstate = .opened → s.openRes = true) ∧
+  (∀ t, s.processing = some t → s.cstate = .opened ∧ (t.phase = .reconn ↔ s.sockOpen = false)) ∧
+  (s.cstate = .opened → s.sockOpen = false → s.processing.isSome = true)
 
 /-- requests owed a response according to the model: the transaction in flight -/
 def owedOf (s : St) : List Nat :=
   match s.processing with
   | none => []
   | some t => [t.id]
+
+/-- the re-connect in progress according to the model, and who waits for it -/
+def rcOf (s : St) : Option (List Nat) :=
+  match s.processing with
+  | none => none
+  | some t => if t.phase = .reconn then some [t.id] else none
 
 theorem inv_init : Inv St.init := by simp [Inv, St.init]
 
@@ -28,12 +38,27 @@ theorem inv_step (s : St) (op : Op) (h : Inv s) : Inv (stepOut s op).1 := by
   simp only [Inv] at h ⊢
   cases op with
   | openT r =>
-    cases r <;> cases ores <;> cases so <;> cases cs <;>
-      simp_all [stepOut, St.openT, St.openImpl, St.fault, St.state, St.close]
+    cases proc with
+    | none =>
+      cases r <;> cases ores <;> cases so <;> cases cs <;>
+        simp_all [stepOut, St.openT, St.openImpl, St.fault, St.state, St.close]
+    | some t =>
+      obtain ⟨tid, tdl, ph⟩ := t
+      cases r <;> cases ores <;> cases so <;> cases cs <;> cases ph <;>
+        simp_all [stepOut, St.openT, St.openImpl, St.fault, St.state, St.close]
   | req id dl =>
-    cases proc <;> cases dl <;> cases so <;> cases cs <;>
-      simp_all [stepOut, St.request, St.txnTimeout, St.txnFail, St.fault, St.state, St.close] <;>
-      (rename_i r; cases r <;> simp_all [St.fault, St.state, St.close])
+    cases proc with
+    | some t => simpa [stepOut, St.request] using h
+    | none =>
+      cases dl with
+      | none => cases so <;> cases cs <;>
+          simp_all [stepOut, St.request, St.txnFail, St.fault, St.state, St.close]
+      | future => cases so <;> cases cs <;>
+          simp_all [stepOut, St.request, St.txnFail, St.fault, St.state, St.close]
+      | past r => cases r <;> cases so <;> cases cs <;>
+          simp_all [stepOut, St.request, St.txnTimeout, St.fault, St.state, St.close]
+      | pastBlock => cases so <;> cases cs <;>
+          simp_all [stepOut, St.request, St.txnTimeoutStart]
   | io o =>
     cases proc with
     | none => simp_all [stepOut, St.io]
@@ -46,8 +71,22 @@ theorem inv_step (s : St) (op : Op) (h : Inv s) : Inv (stepOut s op).1 := by
     | none => simp_all [stepOut, St.timeoutHere]
     | some t =>
       obtain ⟨tid, tdl, ph⟩ := t
-      cases tdl <;> cases r <;> cases so <;> cases cs <;>
+      cases tdl <;> cases r <;> cases ph <;> cases so <;> cases cs <;>
         simp_all [stepOut, St.timeoutHere, St.txnTimeout, St.fault, St.state, St.close]
+  | timeoutBlock =>
+    cases proc with
+    | none => simp_all [stepOut, St.timeoutBlock]
+    | some t =>
+      obtain ⟨tid, tdl, ph⟩ := t
+      cases tdl <;> cases ph <;> cases so <;> cases cs <;>
+        simp_all [stepOut, St.timeoutBlock, St.txnTimeoutStart]
+  | reconn r =>
+    cases proc with
+    | none => simp_all [stepOut, St.reconnDone]
+    | some t =>
+      obtain ⟨tid, tdl, ph⟩ := t
+      cases r <;> cases ph <;> cases so <;> cases cs <;>
+        simp_all [stepOut, St.reconnDone, St.fault, St.state, St.close]
   | close => simp [stepOut, St.close]
   | look => simpa [stepOut] using h
 
@@ -61,6 +100,7 @@ structure Rel (s : St) (a : Acc) (seen : List Nat) : Prop where
   prev : a.prev = s.state
   wr : ∀ id, a.wr = some id → ∃ t, s.processing = some t ∧ t.id = id ∧ t.phase = .write
   seenO : ∀ id ∈ a.owed, id ∈ seen
+  rc : a.rc = rcOf s
   inv : Inv s
 
 def seenAfter (op : Op) (seen : List Nat) : List Nat :=
@@ -69,8 +109,225 @@ def seenAfter (op : Op) (seen : List Nat) : List Nat :=
   | none => seen
 
 theorem rel_init : Rel St.init {} [] := by
-  refine ⟨rfl, rfl, ?_, ?_, inv_init⟩ <;> simp
+  refine ⟨rfl, rfl, ?_, ?_, rfl, inv_init⟩ <;> simp
 
+
+theorem step_ok_look (s : St) (a : Acc) (seen : List Nat) (h : Rel s a seen)
+    (hen : enabled s seen .look = true) :
+    (specStep a .look (obsOf (stepOut s .look).1 (stepOut s .look).2)).1 = .ok ∧
+    Rel (stepOut s .look).1 (specStep a .look (obsOf (stepOut s .look).1 (stepOut s .look).2)).2
+      (seenAfter .look seen) := by
+  have hinv' := inv_step s .look h.inv
+  obtain ⟨ho, hp, hw, hs, hr, hinv⟩ := h
+  have hst := state_eq_cstate s hinv
+  obtain ⟨owed, ab, prev, wr, rc, idx⟩ := a
+  obtain ⟨cs, so, ores, proc⟩ := s
+  simp only at ho hp hw hs hst hr
+  subst ho hp hr
+  simp only [Inv] at hinv
+  cases proc with
+  | none =>
+    cases so <;> cases cs <;>
+    (refine ⟨?_, ⟨?_, ?_, ?_, ?_, ?_, hinv'⟩⟩ <;>
+      simp_all [specStep, owedWith, vFail, vSilence, vCarry, vAble, nextAcc, nextWr, nextRc, rcOf, idleOpen, stepOut, obsOf, isReq, isFailure, Verdict.and, seenAfter, owedOf, St.close,
+        St.state])
+  | some t =>
+    obtain ⟨tid, tdl, ph⟩ := t
+    refine ⟨?_, ⟨?_, ?_, ?_, ?_, ?_, hinv'⟩⟩ <;>
+      simp_all [specStep, owedWith, vFail, vSilence, vCarry, vAble, nextAcc, nextWr, nextRc, rcOf, idleOpen, stepOut, obsOf, isReq, isFailure, Verdict.and, seenAfter, owedOf, St.close,
+        St.state]
+
+theorem step_ok_close (s : St) (a : Acc) (seen : List Nat) (h : Rel s a seen)
+    (hen : enabled s seen .close = true) :
+    (specStep a .close (obsOf (stepOut s .close).1 (stepOut s .close).2)).1 = .ok ∧
+    Rel (stepOut s .close).1 (specStep a .close (obsOf (stepOut s .close).1 (stepOut s .close).2)).2
+      (seenAfter .close seen) := by
+  have hinv' := inv_step s .close h.inv
+  obtain ⟨ho, hp, hw, hs, hr, hinv⟩ := h
+  have hst := state_eq_cstate s hinv
+  obtain ⟨owed, ab, prev, wr, rc, idx⟩ := a
+  obtain ⟨cs, so, ores, proc⟩ := s
+  simp only at ho hp hw hs hst hr
+  subst ho hp hr
+  simp only [Inv] at hinv
+  cases proc <;>
+  (refine ⟨?_, ⟨?_, ?_, ?_, ?_, ?_, hinv'⟩⟩ <;>
+    simp_all [specStep, owedWith, vFail, vSilence, vCarry, vAble, nextAcc, nextWr, nextRc, rcOf, idleOpen, stepOut, obsOf, isReq, isFailure, Verdict.and, seenAfter, owedOf, St.close,
+        St.state])
+
+theorem step_ok_openT (s : St) (a : Acc) (seen : List Nat) (r : Conn) (h : Rel s a seen)
+    (hen : enabled s seen (.openT r) = true) :
+    (specStep a (.openT r) (obsOf (stepOut s (.openT r)).1 (stepOut s (.openT r)).2)).1 = .ok ∧
+    Rel (stepOut s (.openT r)).1 (specStep a (.openT r) (obsOf (stepOut s (.openT r)).1 (stepOut s (.openT r)).2)).2
+      (seenAfter (.openT r) seen) := by
+  have hinv' := inv_step s (.openT r) h.inv
+  obtain ⟨ho, hp, hw, hs, hr, hinv⟩ := h
+  have hst := state_eq_cstate s hinv
+  obtain ⟨owed, ab, prev, wr, rc, idx⟩ := a
+  obtain ⟨cs, so, ores, proc⟩ := s
+  simp only at ho hp hw hs hst hr
+  subst ho hp hr
+  simp only [Inv] at hinv
+  cases proc with
+  | none =>
+    cases r <;> cases ores <;> cases so <;> cases cs <;>
+    (refine ⟨?_, ⟨?_, ?_, ?_, ?_, ?_, hinv'⟩⟩ <;>
+      simp_all [specStep, owedWith, vFail, vSilence, vCarry, vAble, nextAcc, nextWr, nextRc, rcOf, idleOpen, stepOut, obsOf, isReq, isFailure, Verdict.and, seenAfter, owedOf, St.close,
+        St.state, St.openT, St.openImpl, St.fault, firstNotFailed])
+  | some t =>
+    obtain ⟨tid, tdl, ph⟩ := t
+    cases r <;>
+    (refine ⟨?_, ⟨?_, ?_, ?_, ?_, ?_, hinv'⟩⟩ <;>
+      simp_all [specStep, owedWith, vFail, vSilence, vCarry, vAble, nextAcc, nextWr, nextRc, rcOf, idleOpen, stepOut, obsOf, isReq, isFailure, Verdict.and, seenAfter, owedOf, St.close,
+        St.state, St.openT, St.openImpl, St.fault, firstNotFailed])
+
+theorem step_ok_io (s : St) (a : Acc) (seen : List Nat) (o : IOOut) (h : Rel s a seen)
+    (hen : enabled s seen (.io o) = true) :
+    (specStep a (.io o) (obsOf (stepOut s (.io o)).1 (stepOut s (.io o)).2)).1 = .ok ∧
+    Rel (stepOut s (.io o)).1 (specStep a (.io o) (obsOf (stepOut s (.io o)).1 (stepOut s (.io o)).2)).2
+      (seenAfter (.io o) seen) := by
+  have hinv' := inv_step s (.io o) h.inv
+  obtain ⟨ho, hp, hw, hs, hr, hinv⟩ := h
+  have hst := state_eq_cstate s hinv
+  obtain ⟨owed, ab, prev, wr, rc, idx⟩ := a
+  obtain ⟨cs, so, ores, proc⟩ := s
+  simp only at ho hp hw hs hst hr
+  subst ho hp hr
+  simp only [Inv] at hinv
+  cases proc with
+  | none => simp [enabled] at hen
+  | some t =>
+    obtain ⟨tid, tdl, ph⟩ := t
+    cases o <;> cases ph <;> cases so <;> cases cs <;> cases wr <;>
+    (refine ⟨?_, ⟨?_, ?_, ?_, ?_, ?_, hinv'⟩⟩ <;>
+      simp_all [specStep, owedWith, vFail, vSilence, vCarry, vAble, nextAcc, nextWr, nextRc, rcOf, idleOpen, stepOut, obsOf, isReq, isFailure, Verdict.and, seenAfter, owedOf, St.close,
+        St.state, St.io, St.txnFail, St.fault, firstNotFailed, settle, enabled, Resp.isError])
+
+theorem step_ok_timeoutHere (s : St) (a : Acc) (seen : List Nat) (r : Conn) (h : Rel s a seen)
+    (hen : enabled s seen (.timeoutHere r) = true) :
+    (specStep a (.timeoutHere r) (obsOf (stepOut s (.timeoutHere r)).1 (stepOut s (.timeoutHere r)).2)).1 = .ok ∧
+    Rel (stepOut s (.timeoutHere r)).1 (specStep a (.timeoutHere r) (obsOf (stepOut s (.timeoutHere r)).1 (stepOut s (.timeoutHere r)).2)).2
+      (seenAfter (.timeoutHere r) seen) := by
+  have hinv' := inv_step s (.timeoutHere r) h.inv
+  obtain ⟨ho, hp, hw, hs, hr, hinv⟩ := h
+  have hst := state_eq_cstate s hinv
+  obtain ⟨owed, ab, prev, wr, rc, idx⟩ := a
+  obtain ⟨cs, so, ores, proc⟩ := s
+  simp only at ho hp hw hs hst hr
+  subst ho hp hr
+  simp only [Inv] at hinv
+  cases proc with
+  | none => simp [enabled] at hen
+  | some t =>
+    obtain ⟨tid, tdl, ph⟩ := t
+    cases tdl <;> cases r <;> cases ph <;> cases so <;> cases cs <;>
+    (refine ⟨?_, ⟨?_, ?_, ?_, ?_, ?_, hinv'⟩⟩ <;>
+      simp_all [specStep, owedWith, vFail, vSilence, vCarry, vAble, nextAcc, nextWr, nextRc, rcOf, idleOpen, stepOut, obsOf, isReq, isFailure, Verdict.and, seenAfter, owedOf, St.close,
+        St.state, St.timeoutHere, St.txnTimeout, St.fault, firstNotFailed, settle, enabled,
+        Resp.isError])
+
+theorem step_ok_timeoutBlock (s : St) (a : Acc) (seen : List Nat) (h : Rel s a seen)
+    (hen : enabled s seen .timeoutBlock = true) :
+    (specStep a .timeoutBlock (obsOf (stepOut s .timeoutBlock).1 (stepOut s .timeoutBlock).2)).1 = .ok ∧
+    Rel (stepOut s .timeoutBlock).1 (specStep a .timeoutBlock (obsOf (stepOut s .timeoutBlock).1 (stepOut s .timeoutBlock).2)).2
+      (seenAfter .timeoutBlock seen) := by
+  have hinv' := inv_step s .timeoutBlock h.inv
+  obtain ⟨ho, hp, hw, hs, hr, hinv⟩ := h
+  have hst := state_eq_cstate s hinv
+  obtain ⟨owed, ab, prev, wr, rc, idx⟩ := a
+  obtain ⟨cs, so, ores, proc⟩ := s
+  simp only at ho hp hw hs hst hr
+  subst ho hp hr
+  simp only [Inv] at hinv
+  cases proc with
+  | none => simp [enabled] at hen
+  | some t =>
+    obtain ⟨tid, tdl, ph⟩ := t
+    cases tdl <;> cases ph <;> cases so <;> cases cs <;>
+    (refine ⟨?_, ⟨?_, ?_, ?_, ?_, ?_, hinv'⟩⟩ <;>
+      simp_all [specStep, owedWith, vFail, vSilence, vCarry, vAble, nextAcc, nextWr, nextRc, rcOf, idleOpen, stepOut, obsOf, isReq, isFailure, Verdict.and, seenAfter, owedOf, St.close,
+        St.state, St.timeoutBlock, St.txnTimeoutStart, firstNotFailed, settle, enabled,
+        Resp.isError])
+
+theorem step_ok_reconn (s : St) (a : Acc) (seen : List Nat) (r : Conn) (h : Rel s a seen)
+    (hen : enabled s seen (.reconn r) = true) :
+    (specStep a (.reconn r) (obsOf (stepOut s (.reconn r)).1 (stepOut s (.reconn r)).2)).1 = .ok ∧
+    Rel (stepOut s (.reconn r)).1 (specStep a (.reconn r) (obsOf (stepOut s (.reconn r)).1 (stepOut s (.reconn r)).2)).2
+      (seenAfter (.reconn r) seen) := by
+  have hinv' := inv_step s (.reconn r) h.inv
+  obtain ⟨ho, hp, hw, hs, hr, hinv⟩ := h
+  have hst := state_eq_cstate s hinv
+  obtain ⟨owed, ab, prev, wr, rc, idx⟩ := a
+  obtain ⟨cs, so, ores, proc⟩ := s
+  simp only at ho hp hw hs hst hr
+  subst ho hp hr
+  simp only [Inv] at hinv
+  cases proc with
+  | none => simp [enabled] at hen
+  | some t =>
+    obtain ⟨tid, tdl, ph⟩ := t
+    cases r <;> cases ph <;> cases so <;> cases cs <;>
+    (refine ⟨?_, ⟨?_, ?_, ?_, ?_, ?_, hinv'⟩⟩ <;>
+      simp_all [specStep, owedWith, vFail, vSilence, vCarry, vAble, nextAcc, nextWr, nextRc, rcOf, idleOpen, stepOut, obsOf, isReq, isFailure, Verdict.and, seenAfter, owedOf, St.close,
+        St.state, St.reconnDone, St.fault, firstNotFailed, settle, enabled,
+        Resp.isError])
+
+theorem step_ok_req (s : St) (a : Acc) (seen : List Nat) (id : Nat) (dl : DL) (h : Rel s a seen)
+    (hen : enabled s seen (.req id dl) = true) :
+    (specStep a (.req id dl) (obsOf (stepOut s (.req id dl)).1 (stepOut s (.req id dl)).2)).1 = .ok ∧
+    Rel (stepOut s (.req id dl)).1 (specStep a (.req id dl) (obsOf (stepOut s (.req id dl)).1 (stepOut s (.req id dl)).2)).2
+      (seenAfter (.req id dl) seen) := by
+  have hinv' := inv_step s (.req id dl) h.inv
+  obtain ⟨ho, hp, hw, hs, hr, hinv⟩ := h
+  have hst := state_eq_cstate s hinv
+  obtain ⟨owed, ab, prev, wr, rc, idx⟩ := a
+  obtain ⟨cs, so, ores, proc⟩ := s
+  simp only at ho hp hw hs hst hr
+  subst ho hp hr
+  simp only [Inv] at hinv
+  have hfresh : id ∉ seen := by simpa [enabled] using hen
+  cases proc with
+  | none =>
+    cases dl with
+    | past r =>
+      cases r <;> cases so <;> cases cs <;>
+      (refine ⟨?_, ⟨?_, ?_, ?_, ?_, ?_, hinv'⟩⟩ <;>
+        simp_all [specStep, owedWith, vFail, vSilence, vCarry, vAble, nextAcc, nextWr, nextRc, rcOf, idleOpen, stepOut, obsOf, isReq, isFailure, Verdict.and, seenAfter, owedOf, St.close,
+        St.state, St.request, St.txnTimeout, St.fault, firstNotFailed, settle, enabled,
+          Resp.isError])
+    | pastBlock =>
+      cases so <;> cases cs <;>
+      (refine ⟨?_, ⟨?_, ?_, ?_, ?_, ?_, hinv'⟩⟩ <;>
+        simp_all [specStep, owedWith, vFail, vSilence, vCarry, vAble, nextAcc, nextWr, nextRc, rcOf, idleOpen, stepOut, obsOf, isReq, isFailure, Verdict.and, seenAfter, owedOf, St.close,
+        St.state, St.request, St.txnTimeoutStart, firstNotFailed, settle, enabled,
+          Resp.isError])
+    | none =>
+      cases so <;> cases cs <;>
+      (refine ⟨?_, ⟨?_, ?_, ?_, ?_, ?_, hinv'⟩⟩ <;>
+        simp_all [specStep, owedWith, vFail, vSilence, vCarry, vAble, nextAcc, nextWr, nextRc, rcOf, idleOpen, stepOut, obsOf, isReq, isFailure, Verdict.and, seenAfter, owedOf, St.close,
+        St.state, St.request, St.txnFail, St.fault, firstNotFailed, settle, enabled,
+          Resp.isError])
+    | future =>
+      cases so <;> cases cs <;>
+      (refine ⟨?_, ⟨?_, ?_, ?_, ?_, ?_, hinv'⟩⟩ <;>
+        simp_all [specStep, owedWith, vFail, vSilence, vCarry, vAble, nextAcc, nextWr, nextRc, rcOf, idleOpen, stepOut, obsOf, isReq, isFailure, Verdict.and, seenAfter, owedOf, St.close,
+        St.state, St.request, St.txnFail, St.fault, firstNotFailed, settle, enabled,
+          Resp.isError])
+  | some t =>
+    obtain ⟨tid, tdl, ph⟩ := t
+    have hne : tid ≠ id := by
+      intro e; apply hfresh; rw [← e]; exact hs tid (by simp [owedOf])
+    have hne' : id ≠ tid := fun e => hne e.symm
+    cases dl with
+    | past r =>
+      cases r <;>
+      (refine ⟨?_, ⟨?_, ?_, ?_, ?_, ?_, hinv'⟩⟩ <;>
+        simp_all [specStep, owedWith, vFail, vSilence, vCarry, vAble, nextAcc, nextWr, nextRc, rcOf, idleOpen, stepOut, obsOf, isReq, isFailure, Verdict.and, seenAfter, owedOf, St.close,
+        St.state, St.request, firstNotFailed, settle, enabled, Resp.isError])
+    | _ =>
+      refine ⟨?_, ⟨?_, ?_, ?_, ?_, ?_, hinv'⟩⟩ <;>
+        simp_all [specStep, owedWith, vFail, vSilence, vCarry, vAble, nextAcc, nextWr, nextRc, rcOf, idleOpen, stepOut, obsOf, isReq, isFailure, Verdict.and, seenAfter, owedOf, St.close,
+        St.state, St.request, firstNotFailed, settle, enabled, Resp.isError]
 
 /-- one operation: the specification accepts the model's observation, and the relation between
     model state and specification accumulator is kept -/
@@ -79,74 +336,15 @@ theorem step_ok (s : St) (a : Acc) (seen : List Nat) (op : Op) (h : Rel s a seen
     (specStep a op (obsOf (stepOut s op).1 (stepOut s op).2)).1 = .ok ∧
     Rel (stepOut s op).1 (specStep a op (obsOf (stepOut s op).1 (stepOut s op).2)).2
       (seenAfter op seen) := by
-  have hinv' := inv_step s op h.inv
-  obtain ⟨ho, hp, hw, hs, hinv⟩ := h
-  have hst := state_eq_cstate s hinv
-  obtain ⟨owed, ab, prev, wr, idx⟩ := a
-  obtain ⟨cs, so, ores, proc⟩ := s
-  simp only at ho hp hw hs hst
-  subst ho hp
-  simp only [Inv] at hinv
   cases op with
-  | look =>
-    refine ⟨?_, ⟨?_, ?_, ?_, ?_, hinv'⟩⟩ <;>
-      simp_all [specStep, owedWith, vFail, vSilence, vCarry, nextAcc, nextWr, idleOpen, stepOut, obsOf, isReq, isFailure, Verdict.and, seenAfter]
-  | close =>
-    cases proc <;>
-    (refine ⟨?_, ⟨?_, ?_, ?_, ?_, hinv'⟩⟩ <;>
-      simp_all [specStep, owedWith, vFail, vSilence, vCarry, nextAcc, nextWr, idleOpen, stepOut, obsOf, isReq, isFailure, Verdict.and, seenAfter, owedOf, St.close,
-        St.state])
-  | openT r =>
-    cases r <;> cases ores <;> cases so <;> cases cs <;> cases proc <;>
-    (refine ⟨?_, ⟨?_, ?_, ?_, ?_, hinv'⟩⟩ <;>
-      simp_all [specStep, owedWith, vFail, vSilence, vCarry, nextAcc, nextWr, idleOpen, stepOut, obsOf, isReq, isFailure, Verdict.and, seenAfter, owedOf, St.close,
-        St.state, St.openT, St.openImpl, St.fault, firstNotFailed])
-  | io o =>
-    cases proc with
-    | none => simp [enabled] at hen
-    | some t =>
-      obtain ⟨tid, tdl, ph⟩ := t
-      cases o <;> cases ph <;> cases so <;> cases cs <;> cases wr <;>
-      (refine ⟨?_, ⟨?_, ?_, ?_, ?_, hinv'⟩⟩ <;>
-        simp_all [specStep, owedWith, vFail, vSilence, vCarry, nextAcc, nextWr, idleOpen, stepOut, obsOf, isReq, isFailure, Verdict.and, seenAfter, owedOf, St.close,
-          St.state, St.io, St.txnFail, St.fault, firstNotFailed, settle, enabled, Resp.isError])
-  | timeoutHere r =>
-    cases proc with
-    | none => simp [enabled] at hen
-    | some t =>
-      obtain ⟨tid, tdl, ph⟩ := t
-      cases tdl <;> cases r <;> cases so <;> cases cs <;>
-      (refine ⟨?_, ⟨?_, ?_, ?_, ?_, hinv'⟩⟩ <;>
-        simp_all [specStep, owedWith, vFail, vSilence, vCarry, nextAcc, nextWr, idleOpen, stepOut, obsOf, isReq, isFailure, Verdict.and, seenAfter, owedOf, St.close,
-          St.state, St.timeoutHere, St.txnTimeout, St.fault, firstNotFailed, settle, enabled,
-          Resp.isError])
-  | req id dl =>
-    have hfresh : id ∉ seen := by simpa [enabled] using hen
-    cases proc with
-    | none =>
-      cases dl <;> cases so <;> cases cs <;>
-      (refine ⟨?_, ⟨?_, ?_, ?_, ?_, hinv'⟩⟩ <;>
-        simp_all [specStep, owedWith, vFail, vSilence, vCarry, nextAcc, nextWr, idleOpen, stepOut, obsOf, isReq, isFailure, Verdict.and, seenAfter, owedOf, St.close,
-          St.state, St.request, St.txnTimeout, St.txnFail, St.fault, firstNotFailed, settle, enabled,
-          Resp.isError]) <;>
-      (rename_i r; cases r <;>
-        simp_all [specStep, owedWith, vFail, vSilence, vCarry, nextAcc, nextWr, idleOpen, stepOut, obsOf, isReq, isFailure, Verdict.and, seenAfter, owedOf, St.close,
-          St.state, St.request, St.txnTimeout, St.txnFail, St.fault, firstNotFailed, settle, enabled,
-          Resp.isError])
-    | some t =>
-      obtain ⟨tid, tdl, ph⟩ := t
-      have hne : tid ≠ id := by
-        intro e; apply hfresh; rw [← e]; exact hs tid (by simp [owedOf])
-      cases dl <;> cases so <;> cases cs <;>
-      (refine ⟨?_, ⟨?_, ?_, ?_, ?_, hinv'⟩⟩ <;>
-        simp_all [specStep, owedWith, vFail, vSilence, vCarry, nextAcc, nextWr, idleOpen, stepOut, obsOf, isReq, isFailure, Verdict.and, seenAfter, owedOf, St.close,
-          St.state, St.request, St.txnTimeout, St.txnFail, St.fault, firstNotFailed, settle, enabled,
-          Resp.isError]) <;>
-      (rename_i r; cases r <;>
-        simp_all [specStep, owedWith, vFail, vSilence, vCarry, nextAcc, nextWr, idleOpen, stepOut, obsOf, isReq, isFailure, Verdict.and, seenAfter, owedOf, St.close,
-          St.state, St.request, St.txnTimeout, St.txnFail, St.fault, firstNotFailed, settle, enabled,
-          Resp.isError])
-
+  | look => exact step_ok_look s a seen h hen
+  | close => exact step_ok_close s a seen h hen
+  | openT r => exact step_ok_openT s a seen r h hen
+  | io o => exact step_ok_io s a seen o h hen
+  | timeoutHere r => exact step_ok_timeoutHere s a seen r h hen
+  | timeoutBlock => exact step_ok_timeoutBlock s a seen h hen
+  | reconn r => exact step_ok_reconn s a seen r h hen
+  | req id dl => exact step_ok_req s a seen id dl h hen
 
 theorem and_eq_ok {v : Verdict} {f : Unit → Verdict} (h : v.and f = .ok) : v = .ok ∧ f () = .ok := by
   cases v with
